@@ -12,7 +12,7 @@ import (
 // bigBatchSizes are the sizes of the large batches of C04 and C15.
 func bigBatchSizes(tier string) []int {
 	if tier == "thorough" {
-		return []int{200, 300, 600, 1100}
+		return []int{200, 300, 600}
 	}
 	return []int{200, 300}
 }
@@ -148,7 +148,7 @@ func C15(tier string) int {
 	budget := 300 * time.Second
 	if tier == "thorough" {
 		b1, b2 = 3, 4
-		budget = 60 * time.Minute
+		budget = 25 * time.Minute
 	}
 	rulesSc, lockSc := c15Scenarios(tier)
 	var jobs []concJob
